@@ -11,6 +11,7 @@ FIX_COMMITS = [
     "abb0b49f tools.moment on 2-D fields",
     "35edf887 van_der_waals non-isochoric I2",
     "b25de9f1 axisymmetric integral form on None (zero) blocks of mixed-field hessians",
+    "bbcf0668 mesh rotate rounded integer point arrays",
 ]
 CHECKS = {
     "C01": {
